@@ -15,7 +15,7 @@ from multiprocessing import Pool
 
 import z3
 
-from . import pyz3
+from . import c19fp, pyz3
 from .pyz3 import EncodingError, Explorer, Interp, Rec, check, to_term, to_real
 from .. import common
 
@@ -238,11 +238,20 @@ def discharge(ctx, obl, vars_):
     return out
 
 
+TIER = ["quick"]
+
+
+def _set_tier(t):
+    TIER[0] = t
+
+
 def job(args):
     kind, K, extra = args
     pyz3.STATS.update(queries=0, seconds=0.0, unknown=0)
     try:
-        if kind == "stats":
+        if kind.startswith("fp_"):
+            r = c19fp.run_job(kind, K, extra, TIER[0])
+        elif kind == "stats":
             r = check_stats(K, extra)
         elif kind == "covar":
             r = check_covar(K)
@@ -303,6 +312,13 @@ def run(tier):
     except EncodingError as e:
         return common.EXIT_HARNESS, {}, ["ENCODING-ERROR property=C19 %s" % e], [], []
     validation_failure = bad      # decided below: fatal unless the kernels produce a reproducible witness
+    try:
+        nval_fp, bad_fp = c19fp.validate()
+    except EncodingError as e:
+        return common.EXIT_HARNESS, {}, ["ENCODING-ERROR property=C19 (IEEE kernels) %s" % e], [], []
+    if bad_fp and not validation_failure:
+        validation_failure = "IEEE encoding: " + bad_fp
+    TIER[0] = tier
     if tier == "quick":
         Ks = list(range(1, 41)) + [100]
         Kc = list(range(1, 21))
@@ -311,11 +327,13 @@ def run(tier):
         Ks = list(range(1, 121)) + [250, 500]
         Kc = list(range(1, 61))
         Km = [(K, n) for K in (1, 2, 3, 5, 8, 13, 21) for n in (2, 3, 4)]
-    jobs = [("stats", K, ch) for K in Ks for ch in (False, True)]
+    fpjobs = c19fp.jobs(tier)
+    jobs = list(fpjobs)                       # the longest queries first
+    jobs += [("stats", K, ch) for K in Ks for ch in (False, True)]
     jobs += [("covar", K, None) for K in Kc]
     jobs += [("matrix", K, n) for K, n in Km]
     jobs += [("converged", K, None) for K in (1, 2, 3, 5, 10, 100, 1000)]
-    with Pool(int(os.environ.get("VF_JOBS", "14"))) as pool:
+    with Pool(int(os.environ.get("VF_JOBS", "14")), initializer=_set_tier, initargs=(tier,)) as pool:
         results = pool.map(job, jobs, chunksize=1)
     enc = [r for r in results if "encoding_error" in r]
     if enc:
@@ -331,7 +349,10 @@ def run(tier):
         "kernel_queries": sum(r["queries"] for r in results),
         "kernel_solver_seconds": round(sum(r["seconds"] for r in results), 2),
         "kernel_K_stats": [min(Ks), max(Ks)], "kernel_K_covar": [min(Kc), max(Kc)],
-        "kernel_matrix": Km, "kernel_translator_validation_inputs": nval,
+        "kernel_matrix": Km, "kernel_translator_validation_inputs": nval + nval_fp,
+        "kernel_ieee_queries": [[k, K, list(map(str, e))] for k, K, e in fpjobs],
+        "kernel_ieee_bound": "|M2 - exact| <= %g*u*K*xmax*(R + u*xmax), |mean - exact| <= %g*u*xmax, binary64 RNE, "
+                             "lattice inputs c + 2^sexp * t" % (c19fp.CB, c19fp.CB),
         "kernel_inconclusive": len(incon),
         "kernel_functions_encoded": common.source_hash(
             [U().RunningStatistics, U().RunningCovariance, U().RunningCovarianceMatrix]),
@@ -355,6 +376,10 @@ def replay_fail(K, kind, witness):
     """run the real classes on the witness samples and compare with the whole-sample statistics"""
     if witness is None:
         return False, "no witness"
+    if kind == "fp_stats":
+        return c19fp.replay_stats(K, witness)
+    if kind == "fp_covar":
+        return c19fp.replay_covar(K, witness)
     import numpy as np
 
     u = U()
